@@ -4,8 +4,8 @@
 (* an integer-valued aggregate (asc/desc), over world W7.                    *)
 EXTENDS WorldC07, Lang, Json, FiniteSets
 
-VARIABLES keys, fns, flt, ord, phase
-vars == <<keys, fns, flt, ord, phase>>
+VARIABLES keys, fns, flt, ord, shown, phase
+vars == <<keys, fns, flt, ord, shown, phase>>
 
 KeyLists == { <<k>> : k \in {"ext", "dir", "is_dir", "mode", "uid", "length(name)"} } \cup
             { <<"ext", "dir">>, <<"length(name)", "ext">>, <<"is_dir", "ext">>, <<"uid", "mode">>, <<"dir", "uid">>, <<"ext", "length(name)">> }
@@ -13,15 +13,25 @@ AggLists == { <<"count">>, <<"count", "sum">>, <<"sum", "min", "max">>, <<"avg",
 LikeA(c) == A1("name", "like", TextL(<<c, "%">>), "")
 Filters == [ all |-> <<"T">>, ab |-> <<"or", "A", "B">>, notd |-> <<"not", "D">> ]
 FAtoms == [ A |-> LikeA("a"), B |-> LikeA("b"), D |-> LikeA("d"), T |-> A1("length(name)", "gte", IntL(0), "") ]
-(* ord: <<>> none | <<"key", i, desc>> | <<"agg", j, desc>>  (positions within keys / fns) *)
-Orders(k, f) == { [by |-> "none", i |-> 0, desc |-> FALSE] }
-                \cup { [by |-> "key", i |-> i, desc |-> d] : i \in 1 .. Len(k), d \in BOOLEAN }
-                \cup { [by |-> "agg", i |-> j, desc |-> d] : j \in { x \in 1 .. Len(f) : f[x] \in {"count", "sum", "min", "max"} }, d \in BOOLEAN }
+(* ord: a sequence of at most two items [by |-> "key" | "agg", i |-> position within keys / fns, desc]; <<>> = no ORDER BY. *)
+(* Two items: an aggregate then a key, or the two keys of a pair in the other order (the orders disagree on W7).          *)
+OKey(i, d) == [by |-> "key", i |-> i, desc |-> d]
+OAgg(j, d) == [by |-> "agg", i |-> j, desc |-> d]
+IntAggs(f) == { x \in 1 .. Len(f) : f[x] \in {"count", "sum", "min", "max"} }
+Orders(k, f) == { <<>> }
+                \cup { <<OKey(i, d)>> : i \in 1 .. Len(k), d \in BOOLEAN }
+                \cup { <<OAgg(j, d)>> : j \in IntAggs(f), d \in BOOLEAN }
+                \cup { <<OAgg(j, d), OKey(1, e)>> : j \in { x \in IntAggs(f) : f[x] = "count" }, d \in BOOLEAN, e \in BOOLEAN }
+                \cup (IF Len(k) = 2 THEN { <<OKey(2, d), OKey(1, e)>> : d \in BOOLEAN, e \in BOOLEAN } ELSE {})
+(* shown: how many leading keys appear in the select list (a key need not be selected); hidden keys only with exact aggregates *)
+ExactLists == { <<"count">>, <<"count", "sum">>, <<"sum", "min", "max">> }
 
-Init == keys = <<>> /\ fns = <<>> /\ flt = "" /\ ord = [by |-> "none", i |-> 0, desc |-> FALSE] /\ phase = "start"
+Init == keys = <<>> /\ fns = <<>> /\ flt = "" /\ ord = <<>> /\ shown = 0 /\ phase = "start"
 Choose == /\ phase = "start"
           /\ keys' \in KeyLists /\ fns' \in AggLists /\ flt' \in DOMAIN Filters
-          /\ ord' \in Orders(keys', fns')
+          /\ \/ shown' = Len(keys') /\ ord' \in Orders(keys', fns')
+             \/ /\ fns' \in ExactLists /\ shown' \in 0 .. Len(keys') - 1
+                /\ ord' \in { o \in Orders(keys', fns') : \A x \in 1 .. Len(o) : o[x].by = "agg" \/ o[x].i <= shown' }
           /\ phase' = "done"
 Next == Choose
 Spec == Init /\ [][Next]_vars
@@ -30,18 +40,22 @@ FnText(f) == IF f = "count" THEN "count(*)" ELSE f \o "(size)"
 RECURSIVE KeysText(_)
 KeysText(i) == IF i > Len(keys) THEN "" ELSE (IF i > 1 THEN ", " ELSE "") \o keys[i] \o KeysText(i + 1)
 RECURSIVE ListText(_)
-ListText(i) == IF i > Len(fns) THEN "" ELSE ", " \o FnText(fns[i]) \o ListText(i + 1)
+ListText(i) == IF i > Len(fns) THEN "" ELSE (IF i = 1 /\ shown = 0 THEN "" ELSE ", ") \o FnText(fns[i]) \o ListText(i + 1)
+RECURSIVE ShownText(_)
+ShownText(i) == IF i > shown THEN "" ELSE (IF i > 1 THEN ", " ELSE "") \o keys[i] \o ShownText(i + 1)
 WhereText == IF flt = "all" THEN "" ELSE " where " \o FormulaText(Filters[flt], FAtoms, "min")
-OrderText == IF ord.by = "none" THEN ""
-             ELSE " order by " \o (IF ord.by = "key" THEN keys[ord.i] ELSE FnText(fns[ord.i])) \o (IF ord.desc THEN " desc" ELSE "")
+OrdItem(o) == (IF o.by = "key" THEN keys[o.i] ELSE FnText(fns[o.i])) \o (IF o.desc THEN " desc" ELSE "")
+OrderText == IF ord = <<>> THEN "" ELSE " order by " \o OrdItem(ord[1]) \o (IF Len(ord) = 2 THEN ", " \o OrdItem(ord[2]) ELSE "")
+OrdClass == IF ord = <<>> THEN "none" ELSE ord[1].by \o (IF ord[1].desc THEN "-desc" ELSE "") \o (IF Len(ord) = 2 THEN "+" \o ord[2].by \o (IF ord[2].desc THEN "-desc" ELSE "") ELSE "")
 
 Scenario == [prop |-> "C08", world |-> "W7",
-             class |-> "group=" \o KeysText(1) \o "/" \o ord.by \o (IF ord.desc THEN "-desc" ELSE "") \o (IF flt = "all" THEN "" ELSE "/where"),
-             fns |-> fns, col |-> "size", keys |-> keys, order |-> ord,
+             class |-> "group=" \o KeysText(1) \o "/" \o OrdClass \o (IF flt = "all" THEN "" ELSE "/where")
+                       \o (IF shown < Len(keys) THEN "/shown" \o ToString(shown) ELSE ""),
+             fns |-> fns, col |-> "size", keys |-> keys, order |-> ord, shown |-> shown,
              formula |-> [f |-> "prefix", toks |-> Filters[flt], atoms |-> FAtoms],
              env |-> [tz |-> "UTC", cwd |-> 0],
-             runs |-> << [tag |-> "q", ncols |-> Len(keys) + Len(fns), chars |-> TRUE,
-                          argv |-> << "select " \o KeysText(1) \o ListText(1) \o " from '.'" \o WhereText
+             runs |-> << [tag |-> "q", ncols |-> shown + Len(fns), chars |-> TRUE,
+                          argv |-> << "select " \o ShownText(1) \o ListText(1) \o " from '.'" \o WhereText
                                       \o " group by " \o KeysText(1) \o OrderText \o " into list" >>] >>]
 EmitWorld == (phase = "start") => PrintT(<<"WORLD", ToJson([key |-> "W7", world |-> W7])>>)
 Emit == phase = "done" => PrintT(<<"REPLAY", ToJson(Scenario)>>)
